@@ -614,7 +614,7 @@ Proof.
   - rewrite andb_false_r. simpl. destruct (scan_line true (trim l)) eqn:E; try reflexivity; apply IH.
   - destruct l as [|c l']; simpl.
     + destruct pb; simpl; rewrite ?andb_false_r; apply IH.
-    + destruct (chk && is_directive (trim (c :: l'))); [reflexivity|].
+    + match goal with |- (if ?b then _ else _) = _ => destruct b; [reflexivity|] end.
       destruct (scan_line false (trim (c :: l'))) eqn:E; try reflexivity; apply IH.
 Qed.
 
@@ -642,6 +642,19 @@ Proof.
   rewrite trim_cons_nonws by reflexivity. repeat split; reflexivity.
 Qed.
 
+Lemma pfh_blank a t : parse_file_header false a ([] :: t) = parse_file_header false a t.
+Proof. reflexivity. Qed.
+
+Lemma pfh_gb a l t :
+  is_gobuild (trim l) = true -> h_gb a = None -> scan_line false (trim l) = ROut ->
+  parse_file_header false a (l :: t) = parse_file_header false {| h_gb := Some (trim l); h_other := h_other a |} t.
+Proof. intros G N S. simpl. rewrite G, N, S. reflexivity. Qed.
+Lemma pfh_code a l t :
+  scan_line false (trim l) = RCode -> is_gobuild (trim l) = false ->
+  is_plusbuild (trim l) = false -> is_binary_only (trim l) = false ->
+  parse_file_header false a (l :: t) = HOk a.
+Proof. intros C1 C2 C3 C4. simpl. rewrite C1, C2, C3, C4. reflexivity. Qed.
+
 Lemma should_build_shape tags A gl Bq pl :
   run true false A = Some false -> run true false Bq = Some false -> gb_ok gl -> code_line pl ->
   should_build tags (A ++ gl :: [] :: Bq ++ [pl]) =
@@ -649,17 +662,16 @@ Lemma should_build_shape tags A gl Bq pl :
 Proof.
   intros HA HB [G1 G2] [C1 [C2 [C3 C4]]]. unfold should_build.
   rewrite (pfh_quiet A false false _ _ HA).
-  cbn [parse_file_header]. rewrite G1. cbn [negb andb h_gb]. rewrite G2.
-  change (parse_file_header false ?a ([] :: ?t)) with (parse_file_header false a t).
-  rewrite (pfh_quiet Bq false false _ _ HB).
-  cbn [parse_file_header]. rewrite C1, C2, C3, C4. cbn. reflexivity.
+  rewrite pfh_gb by (try reflexivity; assumption).
+  rewrite pfh_blank. rewrite (pfh_quiet Bq false false _ _ HB).
+  rewrite pfh_code by assumption. reflexivity.
 Qed.
 
 Lemma should_build_noconstraint tags A pl :
   run true false A = Some false -> code_line pl -> should_build tags (A ++ [pl]) = Included.
 Proof.
   intros HA [C1 [C2 [C3 C4]]]. unfold should_build. rewrite (pfh_quiet A false false _ _ HA).
-  cbn [parse_file_header]. rewrite C1, C2, C3, C4. reflexivity.
+  rewrite pfh_code by assumption. reflexivity.
 Qed.
 
 Lemma followed_shape A gl rest :
@@ -685,3 +697,608 @@ Proof.
   - simpl. destruct (negb st && matches_generated l); [reflexivity|].
     destruct (scan_line st (trim l)); try discriminate; apply IH; exact H.
 Qed.
+
+(* ================= the templates' lines ================= *)
+Arguments gb_text : simpl never.
+
+Lemma marker_lines t : split_nl (marker_text t) = [M1; M2; M3 t].
+Proof. destruct t; vm_compute; reflexivity. Qed.
+
+Definition bp_lines (bp : option str) : list str := match bp with Some b => split_nl b | None => [] end.
+Definition markers (t : tmpl) : list str := [M1; M2; M3 t].
+
+Lemma above_lines t bp : split_nl (above_constraint t bp) = markers t ++ bp_lines bp.
+Proof.
+  unfold above_constraint. destruct bp as [b|]; simpl bp_lines.
+  - rewrite split_nl_app, marker_lines. reflexivity.
+  - rewrite !app_nil_r. apply marker_lines.
+Qed.
+
+Lemma split_nl_lf b : split_nl (LF :: b) = [] :: split_nl b.
+Proof. apply (split_nl_app [] b). Qed.
+
+Lemma no_lf_gb_text x : no_lf x = true -> no_lf (gb_text x) = true.
+Proof. intros H. unfold gb_text, no_lf. rewrite forallb_app. simpl. exact H. Qed.
+Lemma no_lf_pkg_line pkg : no_lf pkg = true -> no_lf (pkg_line pkg) = true.
+Proof. intros H. unfold pkg_line, no_lf. rewrite forallb_app. simpl. exact H. Qed.
+
+Lemma noop_lines_tags t bp x pkg : no_lf x = true -> no_lf pkg = true ->
+  file_lines Noop t bp (Some x) pkg = (markers t ++ bp_lines bp ++ [[]]) ++ gb_text x :: [] :: [] ++ [pkg_line pkg].
+Proof.
+  intros Hx Hp. unfold file_lines, header_noop. change (GOBUILD ++ x20 :: x) with (gb_text x).
+  replace ((above_constraint t bp ++ (LF :: LF :: gb_text x) ++ [LF; LF]) ++ pkg_line pkg)
+    with (above_constraint t bp ++ LF :: LF :: gb_text x ++ LF :: LF :: pkg_line pkg)
+    by (rewrite <- !app_assoc; reflexivity).
+  rewrite split_nl_app, above_lines, split_nl_lf, split_nl_app, split_nl_lf.
+  rewrite (split_nl_nolf _ (no_lf_gb_text x Hx)), (split_nl_nolf _ (no_lf_pkg_line pkg Hp)).
+  rewrite <- !app_assoc. reflexivity.
+Qed.
+
+Lemma noop_lines_notags t bp pkg : no_lf pkg = true ->
+  file_lines Noop t bp None pkg = (markers t ++ bp_lines bp ++ [[]]) ++ [pkg_line pkg].
+Proof.
+  intros Hp. unfold file_lines, header_noop.
+  replace ((above_constraint t bp ++ [] ++ [LF; LF]) ++ pkg_line pkg)
+    with (above_constraint t bp ++ LF :: LF :: pkg_line pkg) by (rewrite <- !app_assoc; reflexivity).
+  rewrite split_nl_app, above_lines, split_nl_lf, (split_nl_nolf _ (no_lf_pkg_line pkg Hp)).
+  rewrite <- !app_assoc. reflexivity.
+Qed.
+
+Definition obp_quiet (bp : option str) : bool := match bp with Some b => quiet b | None => true end.
+
+Lemma run_markers chk t : run chk false (markers t) = Some false.
+Proof. destruct chk, t; vm_compute; reflexivity. Qed.
+
+Lemma run_above t bp : obp_quiet bp = true -> run true false (markers t ++ bp_lines bp) = Some false.
+Proof.
+  intros Q. rewrite run_app, run_markers. destruct bp as [b|]; simpl in *; [|reflexivity].
+  unfold quiet in Q. destruct (run true false (split_nl b)) as [[|]|]; try discriminate. reflexivity.
+Qed.
+
+Lemma run_snoc_blank chk ls : run chk false ls = Some false -> run chk false (ls ++ [[]]) = Some false.
+Proof. intros H. rewrite run_app, H. destruct chk; reflexivity. Qed.
+
+(* ================= go/printer's placement ================= *)
+Fixpoint cstate (st pb : bool) (ls : list str) : bool * bool :=
+  match ls with
+  | [] => (st, pb)
+  | l :: t =>
+    let st' := match scan_line st (trim l) with RIn => true | _ => false end in
+    if negb st && is_nil l then cstate false true t else cstate st' false t
+  end.
+
+Lemma collapse_app a : forall st pb b,
+  collapse st pb (a ++ b) = collapse st pb a ++ collapse (fst (cstate st pb a)) (snd (cstate st pb a)) b.
+Proof.
+  induction a as [|l t IH]; intros st pb b; [reflexivity|]. simpl.
+  destruct (negb st && is_nil l).
+  - destruct pb; simpl; rewrite IH; reflexivity.
+  - simpl. rewrite IH. reflexivity.
+Qed.
+
+Lemma cstate_run chk a : forall st pb st', run chk st a = Some st' -> fst (cstate st pb a) = st'.
+Proof.
+  induction a as [|l t IH]; intros st pb st' H; simpl in H; [injection H as <-; reflexivity|].
+  simpl. destruct (chk && negb st && is_directive (trim l)); [discriminate|].
+  destruct st; simpl.
+  - destruct (scan_line true (trim l)); try discriminate; eapply IH; exact H.
+  - destruct l as [|c l']; simpl.
+    + eapply IH. exact H.
+    + destruct (scan_line false (trim (c :: l'))); try discriminate; eapply IH; exact H.
+Qed.
+
+Lemma collapse_cons_nonnil l t pb :
+  is_nil l = false -> scan_line false (trim l) = ROut -> collapse false pb (l :: t) = l :: collapse false false t.
+Proof. intros N S. simpl. rewrite N, S. reflexivity. Qed.
+
+Lemma scan_gobuild y : scan_line false (trim (GOBUILD ++ y)) = ROut.
+Proof. unfold trim. rewrite rstrip_gobuild. reflexivity. Qed.
+
+Lemma gb_canon_form x : exists y, gb_canon x = GOBUILD ++ y.
+Proof.
+  unfold gb_canon. destruct (parse_line _); [eexists; reflexivity | |];
+    rewrite rstrip_gobuild; eexists; reflexivity.
+Qed.
+
+Lemma gb_canon_ok x e : parse_line (trim (gb_text x)) = LOk e -> gb_canon x = gb_text (go_string e).
+Proof. intros H. unfold gb_canon. change (GOBUILD ++ x20 :: x) with (gb_text x). rewrite trim_rstrip, H. reflexivity. Qed.
+
+Definition lead (l : str) : bool := is_nil l || is_slash l.
+
+Lemma lead_split_app ls : forall p q, lead_split ls = (p, q) -> p ++ q = ls.
+Proof.
+  induction ls as [|l t IH]; intros p q H; simpl in H; [injection H as <- <-; reflexivity|].
+  destruct (is_nil l || is_slash l); [|injection H as <- <-; reflexivity].
+  destruct (lead_split t) as [p0 q0]. specialize (IH p0 q0 eq_refl).
+  destruct p0 as [|a p0'].
+  - destruct (is_nil l); injection H as <- <-; simpl in *; rewrite IH; reflexivity.
+  - injection H as <- <-. simpl. f_equal. exact IH.
+Qed.
+
+Lemma lead_split_lead ls : forall p q, lead_split ls = (p, q) -> forallb lead p = true.
+Proof.
+  induction ls as [|l t IH]; intros p q H; simpl in H; [injection H as <- <-; reflexivity|].
+  destruct (is_nil l || is_slash l) eqn:L; [|injection H as <- <-; reflexivity].
+  destruct (lead_split t) as [p0 q0]. specialize (IH p0 q0 eq_refl).
+  destruct p0 as [|a p0'].
+  - destruct (is_nil l) eqn:N; injection H as <- <-; simpl; [unfold lead; rewrite N|]; reflexivity.
+  - injection H as <- <-. simpl. unfold lead at 1. rewrite L. exact IH.
+Qed.
+
+Lemma scan_slash l : is_slash l = true -> scan_line false (trim l) = ROut.
+Proof.
+  unfold is_slash. intros H. apply has_prefix_spec in H as [r ->].
+  change (B "//" ++ r) with (x2f :: x2f :: r).
+  rewrite trim_cons_nonws by reflexivity. rewrite rstrip_cons_nonws by reflexivity. reflexivity.
+Qed.
+
+Lemma run_lead chk p : forallb lead p = true -> forall s, run chk false p = Some s -> s = false.
+Proof.
+  induction p as [|l t IH]; intros F s H; simpl in *; [congruence|].
+  apply andb_true_iff in F as [L F]. destruct (chk && true && is_directive (trim l)); [discriminate|].
+  unfold lead in L. destruct l as [|c l'].
+  - simpl in H. apply IH; assumption.
+  - simpl in L. rewrite (scan_slash _ L) in H. apply IH; assumption.
+Qed.
+
+Lemma collapse_suffix_gb A gl :
+  run true false A = Some false -> is_nil gl = false -> scan_line false (trim gl) = ROut ->
+  collapse false false (A ++ [gl; []]) = collapse false false A ++ [gl; []].
+Proof.
+  intros H N S. rewrite collapse_app. rewrite (cstate_run true A false false false H).
+  rewrite collapse_cons_nonnil by assumption. reflexivity.
+Qed.
+
+(* in every case the formatted file has the shape  A ++ gb :: [] :: Bq ++ [package clause]
+   with A and Bq blank/comment-only, free of constraint lines and closed *)
+Lemma place_shape L gl :
+  run true false L = Some false -> gb_ok gl -> is_nil gl = false ->
+  exists A Bq, place L gl = A ++ gl :: [] :: Bq /\
+               run true false A = Some false /\ run true false Bq = Some false.
+Proof.
+  intros HL [G1 G2] N. unfold place. destruct (has_other L).
+  - destruct (lead_split L) as [p q] eqn:E.
+    pose proof (lead_split_app _ _ _ E) as EA. pose proof (lead_split_lead _ _ _ E) as EL.
+    exists p, (collapse false false (q ++ [[]])). split; [reflexivity|].
+    rewrite <- EA, run_app in HL. destruct (run true false p) as [s|] eqn:Rp; [|discriminate].
+    pose proof (run_lead _ _ EL _ Rp) as ->. split; [reflexivity|].
+    rewrite run_collapse. apply run_snoc_blank. exact HL.
+  - exists (collapse false false (L ++ [[]])), []. split.
+    + change (L ++ [[]; gl; []]) with (L ++ [[]] ++ [gl; []]). rewrite app_assoc.
+      apply collapse_suffix_gb; [apply run_snoc_blank; exact HL | exact N | exact G2].
+    + split; [|reflexivity]. rewrite run_collapse. apply run_snoc_blank. exact HL.
+Qed.
+
+Lemma run_fmt_L t bp : obp_quiet bp = true ->
+  run true false (norm_lines (split_nl (above_constraint t bp))) = Some false.
+Proof. intros Q. unfold norm_lines. rewrite run_norm, above_lines. apply run_above. exact Q. Qed.
+
+(* ================= C17: effectiveness of the constraint ================= *)
+Definition is_noop (f : formatter) : bool := match f with Noop => true | _ => false end.
+
+Theorem constraint_effective f t bp x e pkg tags :
+  obp_quiet bp = true -> no_lf x = true -> no_lf pkg = true ->
+  parse_line (trim (gb_text x)) = LOk e ->
+  (is_noop f = false -> wf_tags e = true /\ no_dneg e = true /\ small e = true) ->
+  should_build tags (file_lines f t bp (Some x) pkg) = of_bool (eval tags e).
+Proof.
+  intros Q Hx Hp P G.
+  assert (Fmt : is_noop f = false ->
+          should_build tags (fmt_lines t bp (Some x) ++ [pkg_line pkg]) = of_bool (eval tags e)).
+  { intros NF. destruct (G NF) as [W [D Sm]]. unfold fmt_lines.
+    rewrite (gb_canon_ok x e P).
+    destruct (place_shape _ (gb_text (go_string e)) (run_fmt_L t bp Q) (gb_ok_text _) eq_refl) as [A [Bq [E [RA RB]]]].
+    rewrite E, <- app_assoc. simpl.
+    rewrite (should_build_shape tags A _ Bq _ RA RB (gb_ok_text _) (code_pkg pkg)).
+    destruct (parse_line_canon e W D Sm) as [e' [P' Q']]. rewrite P', Q'. reflexivity. }
+  destruct f; [|apply Fmt; reflexivity|apply Fmt; reflexivity].
+  rewrite noop_lines_tags by assumption. rewrite (app_assoc (markers t) (bp_lines bp) [[]]).
+  rewrite (should_build_shape tags _ (gb_text x) [] _ (run_snoc_blank _ _ (run_above t bp Q)) eq_refl (gb_ok_text x) (code_pkg pkg)).
+  rewrite P. reflexivity.
+Qed.
+
+Lemma collapse_nil_end st pb : collapse st pb [] = [].
+Proof. reflexivity. Qed.
+
+Theorem no_constraint_included f t bp pkg tags :
+  obp_quiet bp = true -> no_lf pkg = true ->
+  should_build tags (file_lines f t bp None pkg) = Included.
+Proof.
+  intros Q Hp.
+  assert (Fmt : should_build tags (fmt_lines t bp None ++ [pkg_line pkg]) = Included).
+  { unfold fmt_lines. apply should_build_noconstraint; [|apply code_pkg].
+    rewrite run_collapse. apply run_snoc_blank. apply run_fmt_L. exact Q. }
+  destruct f; try exact Fmt.
+  rewrite noop_lines_notags by assumption.
+  apply should_build_noconstraint; [|apply code_pkg].
+  rewrite app_assoc. apply run_snoc_blank. apply run_above. exact Q.
+Qed.
+
+Lemma gb_canon_gb_ok x : gb_ok (gb_canon x) /\ is_nil (gb_canon x) = false.
+Proof.
+  unfold gb_canon. change (GOBUILD ++ x20 :: x) with (gb_text x).
+  destruct (parse_line _).
+  - split; [apply gb_ok_text | reflexivity].
+  - split; [unfold gb_ok; rewrite trim_rstrip; apply gb_ok_text | unfold gb_text; rewrite rstrip_gobuild; reflexivity].
+  - split; [unfold gb_ok; rewrite trim_rstrip; apply gb_ok_text | unfold gb_text; rewrite rstrip_gobuild; reflexivity].
+Qed.
+
+Theorem constraint_followed_by_blank f t bp x pkg :
+  obp_quiet bp = true -> no_lf x = true -> no_lf pkg = true ->
+  gobuild_followed_by_blank false (file_lines f t bp (Some x) pkg) = true.
+Proof.
+  intros Q Hx Hp.
+  assert (Fmt : gobuild_followed_by_blank false (fmt_lines t bp (Some x) ++ [pkg_line pkg]) = true).
+  { unfold fmt_lines. destruct (gb_canon_gb_ok x) as [GO N].
+    destruct (place_shape _ (gb_canon x) (run_fmt_L t bp Q) GO N) as [A [Bq [E [RA RB]]]].
+    rewrite E, <- app_assoc. simpl. apply followed_shape; assumption. }
+  destruct f; try exact Fmt.
+  rewrite noop_lines_tags by assumption.
+  apply followed_shape; [|apply gb_ok_text].
+  rewrite app_assoc. apply run_snoc_blank. apply run_above. exact Q.
+Qed.
+
+(* ================= C17: the marker ================= *)
+Lemma norm_M1 rest : norm_lines (M1 :: rest) = M1 :: collapse false false (map rstrip rest).
+Proof.
+  unfold norm_lines. simpl map. replace (rstrip M1) with M1 by (vm_compute; reflexivity).
+  apply collapse_cons_nonnil; vm_compute; reflexivity.
+Qed.
+
+Lemma collapse_M1 rest pb : collapse false pb (M1 :: rest) = M1 :: collapse false false rest.
+Proof. apply collapse_cons_nonnil; vm_compute; reflexivity. Qed.
+
+Lemma is_generated_M1 rest : is_generated false (M1 :: rest) = true.
+Proof. apply (is_generated_after [] false rest). reflexivity. Qed.
+
+Lemma run_gb_blank gl : gb_ok gl -> run false false [gl; []] = Some false.
+Proof. intros [_ G]. simpl. rewrite G. reflexivity. Qed.
+
+(* no hypothesis on the boilerplate or on the tag text *)
+Theorem marker_present f t bp tags pkg :
+  no_lf pkg = true -> is_generated false (file_lines f t bp tags pkg) = true.
+Proof.
+  intros Hp.
+  assert (Fmt : is_generated false (fmt_lines t bp tags ++ [pkg_line pkg]) = true).
+  { unfold fmt_lines. rewrite above_lines. unfold markers. cbn [app]. rewrite norm_M1.
+    set (R := collapse false false (map rstrip (M2 :: M3 t :: bp_lines bp))).
+    destruct tags as [x|].
+    - unfold place. destruct (has_other (M1 :: R)).
+      + destruct (lead_split (M1 :: R)) as [p q] eqn:E. pose proof (lead_split_app _ _ _ E) as EA.
+        destruct p as [|l p'].
+        * simpl in EA. subst q. cbn [app]. rewrite collapse_M1.
+          apply (is_generated_after [gb_canon x; []] false). apply run_gb_blank. apply gb_canon_gb_ok.
+        * simpl in EA. injection EA as -> _. apply is_generated_M1.
+      + cbn [app]. rewrite collapse_M1. apply is_generated_M1.
+    - cbn [app]. rewrite collapse_M1. apply is_generated_M1. }
+  destruct f; try exact Fmt.
+  unfold file_lines, header_noop, above_constraint, marker_text.
+  rewrite <- !app_assoc. cbn [app]. rewrite split_nl_app. rewrite (split_nl_nolf M1) by (vm_compute; reflexivity).
+  apply is_generated_M1.
+Qed.
+
+(* ================= C17: the boilerplate ================= *)
+Theorem boilerplate_verbatim_noop t b tags :
+  header Noop t (Some b) tags =
+  (marker_text t ++ [LF]) ++ b ++
+  (match tags with Some x => LF :: LF :: GOBUILD ++ x20 :: x | None => [] end ++ [LF; LF]).
+Proof. unfold header, header_noop, above_constraint. rewrite <- !app_assoc. reflexivity. Qed.
+
+Definition is_some {A} (o : option A) : bool := match o with Some _ => true | None => false end.
+
+Lemma scan_in_lstrip l : scan_line true (lstrip l) = scan_line true l.
+Proof.
+  induction l as [|c t IH]; [reflexivity|]. simpl. destruct (is_ws c) eqn:W; [|reflexivity].
+  rewrite IH. destruct c; try discriminate; reflexivity.
+Qed.
+
+Lemma line_stable_rstrip l : line_stable l = true -> rstrip l = l.
+Proof. unfold line_stable. rewrite andb_true_iff. intros [H _]. apply seqb_eq. exact H. Qed.
+
+Lemma stable_rstrip ls : forall st pb, stable_lines st pb ls = true -> map rstrip ls = ls.
+Proof.
+  induction ls as [|l t IH]; intros st pb H; [reflexivity|]. simpl in H.
+  apply andb_true_iff in H as [L H]. simpl. rewrite (line_stable_rstrip l L). f_equal.
+  destruct st as [[sh inner]|].
+  - destruct (seqb l (B " */")); [destruct sh; try discriminate; eapply IH; exact H|].
+    destruct (seqb l (B "*/")); [destruct sh; try discriminate; apply andb_true_iff in H as [_ H]; eapply IH; exact H|].
+    destruct (scan_line true l); try discriminate.
+    destruct (is_nil l); [eapply IH; exact H|].
+    destruct (starts_star l); [destruct sh; try discriminate; eapply IH; exact H|].
+    destruct (flush_line l); [destruct sh; try discriminate; eapply IH; exact H | discriminate].
+  - destruct (is_nil l); [apply andb_true_iff in H as [_ H]; eapply IH; exact H|].
+    destruct (is_slash l); [eapply IH; exact H|].
+    destruct (has_prefix l (B "/*")); [|discriminate].
+    match type of H with context [scan_line true ?z] => destruct (scan_line true z) end;
+      try discriminate; [apply andb_true_iff in H as [_ H]|]; eapply IH; exact H.
+Qed.
+
+Lemma stable_collapse ls : forall st pb, stable_lines st pb ls = true -> collapse (is_some st) pb ls = ls.
+Proof.
+  induction ls as [|l t IH]; intros st pb H; [reflexivity|]. simpl in H.
+  apply andb_true_iff in H as [L H]. pose proof (line_stable_rstrip l L) as RS.
+  destruct st as [[sh inner]|]; simpl is_some; cbn [collapse negb andb].
+  - (* inside a block comment *)
+    f_equal.
+    destruct (seqb l (B " */")) eqn:E1.
+    { apply seqb_eq in E1. subst l. destruct sh; try discriminate; apply (IH None false H). }
+    destruct (seqb l (B "*/")) eqn:E2.
+    { apply seqb_eq in E2. subst l. destruct sh; try discriminate. apply andb_true_iff in H as [_ H]. apply (IH None false H). }
+    assert (S : scan_line true (trim l) = scan_line true l) by (unfold trim; rewrite RS; apply scan_in_lstrip).
+    rewrite S. destruct (scan_line true l); try discriminate.
+    destruct (is_nil l); [apply (IH (Some (sh, inner)) false H)|].
+    destruct (starts_star l); [destruct sh; try discriminate; apply (IH (Some (BStar, true)) false H)|].
+    destruct (flush_line l); [destruct sh; try discriminate; apply (IH (Some (BFlush, true)) false H) | discriminate].
+  - destruct l as [|c l'].
+    + simpl in H. apply andb_true_iff in H as [P H]. apply negb_true_iff in P. subst pb.
+      simpl. f_equal. apply (IH None true H).
+    + cbn [is_nil] in *. f_equal.
+      destruct (is_slash (c :: l')) eqn:SL.
+      { rewrite (scan_slash _ SL). apply (IH None false H). }
+      destruct (has_prefix (c :: l') (B "/*")) eqn:HP; [|discriminate].
+      apply has_prefix_spec in HP as [r Er]. change (B "/*" ++ r) with (x2f :: x2a :: r) in Er.
+      injection Er as -> ->. cbn [skipn] in H. cbn iota in H.
+      assert (T : trim (x2f :: x2a :: r) = x2f :: x2a :: r).
+      { unfold trim. rewrite RS. reflexivity. }
+      rewrite T. change (scan_line false (x2f :: x2a :: r)) with (scan_line true r).
+      destruct (scan_line true r); try discriminate.
+      * apply andb_true_iff in H as [_ H]. apply (IH None false H).
+      * apply (IH (Some (BUnknown, false)) false H).
+Qed.
+
+Lemma stable_collapse_out ls pb : stable_lines None pb ls = true -> collapse false pb ls = ls.
+Proof. apply (stable_collapse ls None pb). Qed.
+
+Lemma stable_markers t ls : stable_lines None false (markers t ++ ls) = stable_lines None false ls.
+Proof. destruct t; reflexivity. Qed.
+
+Lemma lead_split_cons_slash l t :
+  is_nil l = false -> is_slash l = true -> fst (lead_split t) = [] -> lead_split (l :: t) = ([], l :: t).
+Proof.
+  intros N S F. simpl. rewrite N, S. simpl. destruct (lead_split t) as [p q] eqn:E.
+  simpl in F. subst p. apply lead_split_app in E. simpl in E. subst q. reflexivity.
+Qed.
+
+Lemma has_other_markers t ls : has_other (markers t ++ ls) = has_other ls.
+Proof. destruct t; reflexivity. Qed.
+
+Lemma lead_split_markers t ls : fst (lead_split ls) = [] -> lead_split (markers t ++ ls) = ([], markers t ++ ls).
+Proof.
+  intros F. unfold markers. simpl app.
+  assert (F3 : lead_split (M3 t :: ls) = ([], M3 t :: ls)) by (apply lead_split_cons_slash; [destruct t; reflexivity | destruct t; reflexivity | exact F]).
+  assert (F2 : lead_split (M2 :: M3 t :: ls) = ([], M2 :: M3 t :: ls)) by (apply lead_split_cons_slash; [reflexivity | reflexivity | rewrite F3; reflexivity]).
+  apply lead_split_cons_slash; [reflexivity | reflexivity | rewrite F2; reflexivity].
+Qed.
+
+(* under a formatter the lines of a guarded boilerplate stay together, right after the marker *)
+Lemma fmt_lines_verbatim t b tags : fmt_verbatim_guard b = true ->
+  exists P X, fmt_lines t (Some b) tags = P ++ (markers t ++ split_nl b) ++ X.
+Proof.
+  unfold fmt_verbatim_guard. rewrite andb_true_iff. intros [ST NS].
+  assert (STL : stable_lines None false (markers t ++ split_nl b) = true) by (rewrite stable_markers; exact ST).
+  assert (EL : norm_lines (split_nl (above_constraint t (Some b))) = markers t ++ split_nl b).
+  { rewrite above_lines. simpl bp_lines. unfold norm_lines. rewrite (stable_rstrip _ _ _ STL).
+    apply (stable_collapse_out _ false STL). }
+  assert (App : forall Y, exists X, collapse false false ((markers t ++ split_nl b) ++ Y) = (markers t ++ split_nl b) ++ X).
+  { intros Y. rewrite collapse_app. rewrite (stable_collapse_out _ false STL). eexists. reflexivity. }
+  unfold fmt_lines. rewrite EL. destruct tags as [x|].
+  - unfold place. rewrite has_other_markers. unfold no_split in NS. destruct (has_other (split_nl b)).
+    + simpl in NS. destruct (fst (lead_split (split_nl b))) eqn:F; [|discriminate].
+      rewrite (lead_split_markers t _ F). destruct (App [[]]) as [X EX]. rewrite EX.
+      exists [gb_canon x; []], X. reflexivity.
+    + destruct (App [[]; gb_canon x; []]) as [X EX]. rewrite EX. exists [], X. reflexivity.
+  - destruct (App [[]]) as [X EX]. rewrite EX. exists [], X. reflexivity.
+Qed.
+
+Theorem boilerplate_verbatim_fmt f t b tags : fmt_verbatim_guard b = true ->
+  exists pre post, header f t (Some b) tags = pre ++ b ++ post.
+Proof.
+  intros G. destruct f.
+  - eexists. eexists. apply boilerplate_verbatim_noop.
+  - destruct (fmt_lines_verbatim t b tags G) as [P [X E]]. unfold header. rewrite E.
+    rewrite !unlines_app, unlines_split. exists (unlines P ++ unlines (markers t)), ([LF] ++ unlines X).
+    rewrite <- !app_assoc. reflexivity.
+  - destruct (fmt_lines_verbatim t b tags G) as [P [X E]]. unfold header. rewrite E.
+    rewrite !unlines_app, unlines_split. exists (unlines P ++ unlines (markers t)), ([LF] ++ unlines X).
+    rewrite <- !app_assoc. reflexivity.
+Qed.
+
+(* ================= parsed expressions have well-formed tags ================= *)
+Definition tok_wf (t : token) : bool := match t with TTag s => wf_tag s | _ => true end.
+Definition toks_wf (ts : list token) : bool := forallb tok_wf ts.
+
+Lemma flush_wf cur k ts : forallb is_tag_char cur = true ->
+  flush cur k = Some ts -> (forall ts', k = Some ts' -> toks_wf ts' = true) -> toks_wf ts = true.
+Proof.
+  intros C F K. destruct cur as [|c cur']; simpl in F.
+  - apply K. exact F.
+  - destruct k as [ts'|]; [|discriminate]. injection F as <-. simpl. rewrite (K ts' eq_refl).
+    unfold wf_tag. simpl is_nil. simpl negb. rewrite C. reflexivity.
+Qed.
+
+Lemma ocons_wf t k ts' : tok_wf t = true -> (forall ts, k = Some ts -> toks_wf ts = true) ->
+  ocons t k = Some ts' -> toks_wf ts' = true.
+Proof. intros T K H. destruct k as [ts|]; [|discriminate]. injection H as <-. simpl. rewrite T. apply K. reflexivity. Qed.
+
+Lemma lex_wf_n n : forall s cur ts, length s <= n ->
+  forallb is_tag_char cur = true -> lex cur s = Some ts -> toks_wf ts = true.
+Proof.
+  induction n as [|n IH]; intros s cur ts L C H.
+  - destruct s; [|simpl in L; lia]. simpl in H.
+    eapply flush_wf; [exact C | exact H |]. intros ts' E. injection E as <-. reflexivity.
+  - destruct s as [|c t].
+    { simpl in H. eapply flush_wf; [exact C | exact H |]. intros ts' E. injection E as <-. reflexivity. }
+    simpl in L. simpl in H. destruct (is_tag_char c) eqn:TC.
+    + eapply (IH t); [lia | | exact H]. rewrite forallb_app, C. simpl. rewrite TC. reflexivity.
+    + assert (R : forall ts', lex [] t = Some ts' -> toks_wf ts' = true) by (intros ts' E; eapply (IH t []); [lia | reflexivity | exact E]).
+      destruct c; try discriminate;
+        try (eapply flush_wf; [exact C | exact H |]; intros ts' E; first [apply R; exact E | eapply ocons_wf; [ | | exact E]; [reflexivity | exact R]]).
+      * destruct t as [|c2 t']; [simpl in H; discriminate|]. destruct c2; try (simpl in H; discriminate).
+        eapply flush_wf; [exact C | exact H |]. intros ts' E. eapply ocons_wf; [ | | exact E]; [reflexivity|].
+        intros ts2 E2. eapply (IH t' []); [simpl in L; lia | reflexivity | exact E2].
+      * destruct t as [|c2 t']; [simpl in H; discriminate|]. destruct c2; try (simpl in H; discriminate).
+        eapply flush_wf; [exact C | exact H |]. intros ts' E. eapply ocons_wf; [ | | exact E]; [reflexivity|].
+        intros ts2 E2. eapply (IH t' []); [simpl in L; lia | reflexivity | exact E2].
+Qed.
+
+Lemma lex_wf s ts : lex [] s = Some ts -> toks_wf ts = true.
+Proof. intros H. eapply (lex_wf_n (length s) s []); [lia | reflexivity | exact H]. Qed.
+
+Definition acc_wf (acc : option expr) : bool := match acc with Some a => wf_tags a | None => true end.
+
+Lemma parse_wf_step n :
+  (forall acc ts x r, toks_wf ts = true -> acc_wf acc = true -> or_from n acc ts = POk x r -> wf_tags x = true /\ toks_wf r = true) /\
+  (forall acc ts x r, toks_wf ts = true -> acc_wf acc = true -> and_from n acc ts = POk x r -> wf_tags x = true /\ toks_wf r = true) /\
+  (forall ts x r, toks_wf ts = true -> p_not n ts = POk x r -> wf_tags x = true /\ toks_wf r = true).
+Proof.
+  induction n as [|n [IHo [IHa IHn]]].
+  - repeat split; intros; simpl in *; discriminate.
+  - assert (Hatom : forall ts x r, toks_wf ts = true -> atom (or_from n None) ts = POk x r -> wf_tags x = true /\ toks_wf r = true).
+    { intros ts x r W H. destruct ts as [|[s| | | | |] t]; simpl in H; try discriminate.
+      - injection H as <- <-. simpl in W. apply andb_true_iff in W as [W1 W2]. split; assumption.
+      - destruct (or_from n None t) as [y r0| |] eqn:E; try discriminate.
+        destruct r0 as [|[s| | | | |] r1]; try discriminate. injection H as <- <-.
+        apply IHo in E; [|exact W|reflexivity]. destruct E as [E1 E2]. split; [exact E1 | exact E2]. }
+    repeat split.
+    + simpl in H1. destruct (and_from n None ts) as [y r0| |] eqn:E; try discriminate.
+      apply IHa in E; [|assumption|reflexivity]. destruct E as [E1 E2].
+      assert (CW : wf_tags (comb Or acc y) = true) by (destruct acc; simpl in *; [rewrite H0|]; assumption).
+      destruct r0 as [|[s| | | | |] r1]; try (injection H1 as <- <-; assumption).
+      apply IHo in H1; [destruct H1; assumption | exact E2 | exact CW].
+    + simpl in H1. destruct (and_from n None ts) as [y r0| |] eqn:E; try discriminate.
+      apply IHa in E; [|assumption|reflexivity]. destruct E as [E1 E2].
+      assert (CW : wf_tags (comb Or acc y) = true) by (destruct acc; simpl in *; [rewrite H0|]; assumption).
+      destruct r0 as [|[s| | | | |] r1]; try (injection H1 as <- <-; assumption).
+      apply IHo in H1; [destruct H1; assumption | exact E2 | exact CW].
+    + simpl in H1. destruct (p_not n ts) as [y r0| |] eqn:E; try discriminate.
+      apply IHn in E; [|assumption]. destruct E as [E1 E2].
+      assert (CW : wf_tags (comb And acc y) = true) by (destruct acc; simpl in *; [rewrite H0|]; assumption).
+      destruct r0 as [|[s| | | | |] r1]; try (injection H1 as <- <-; assumption).
+      apply IHa in H1; [destruct H1; assumption | exact E2 | exact CW].
+    + simpl in H1. destruct (p_not n ts) as [y r0| |] eqn:E; try discriminate.
+      apply IHn in E; [|assumption]. destruct E as [E1 E2].
+      assert (CW : wf_tags (comb And acc y) = true) by (destruct acc; simpl in *; [rewrite H0|]; assumption).
+      destruct r0 as [|[s| | | | |] r1]; try (injection H1 as <- <-; assumption).
+      apply IHa in H1; [destruct H1; assumption | exact E2 | exact CW].
+    + change (p_not (S n) ts) with
+        (match ts with
+         | TNot :: TNot :: _ => PErr
+         | TNot :: r => match atom (or_from n None) r with POk x r' => POk (Not x) r' | o => o end
+         | _ => atom (or_from n None) ts end) in H0.
+      destruct ts as [|[s| | | | |] t]; try (apply Hatom in H0; [destruct H0; assumption | exact H]).
+      destruct t as [|[s| | | | |] t']; try discriminate;
+        match type of H0 with
+        | match atom ?f ?l with _ => _ end = _ =>
+          destruct (atom f l) as [y r0| |] eqn:E; try discriminate; injection H0 as <- <-;
+          apply Hatom in E; [destruct E; assumption | exact H]
+        end.
+    + change (p_not (S n) ts) with
+        (match ts with
+         | TNot :: TNot :: _ => PErr
+         | TNot :: r => match atom (or_from n None) r with POk x r' => POk (Not x) r' | o => o end
+         | _ => atom (or_from n None) ts end) in H0.
+      destruct ts as [|[s| | | | |] t]; try (apply Hatom in H0; [destruct H0; assumption | exact H]).
+      destruct t as [|[s| | | | |] t']; try discriminate;
+        match type of H0 with
+        | match atom ?f ?l with _ => _ end = _ =>
+          destruct (atom f l) as [y r0| |] eqn:E; try discriminate; injection H0 as <- <-;
+          apply Hatom in E; [destruct E; assumption | exact H]
+        end.
+Qed.
+
+Lemma parse_expr_wf s e : parse_expr s = LOk e -> wf_tags e = true.
+Proof.
+  unfold parse_expr. destruct (lex [] s) as [ts|] eqn:L; [|discriminate].
+  destruct (Nat.ltb max_size (calls ts)); [discriminate|].
+  destruct (or_from (fuel_for ts) None ts) as [x r| |] eqn:E; try discriminate.
+  destruct r; [|discriminate]. intros H. injection H as <-.
+  apply (proj1 (parse_wf_step _)) in E; [apply E | eapply lex_wf; exact L | reflexivity].
+Qed.
+
+Lemma parse_line_wf l e : parse_line l = LOk e -> wf_tags e = true.
+Proof.
+  unfold parse_line. destruct (has_prefix l GOBUILD); [|discriminate].
+  destruct (Nat.eqb _ _); [discriminate|]. apply parse_expr_wf.
+Qed.
+
+(* ================= final forms ================= *)
+Theorem constraint_effective_parsed f t bp x e pkg tags :
+  obp_quiet bp = true -> no_lf x = true -> no_lf pkg = true ->
+  parse_line (trim (gb_text x)) = LOk e ->
+  (is_noop f = false -> no_dneg e = true /\ small e = true) ->
+  should_build tags (file_lines f t bp (Some x) pkg) = of_bool (eval tags e).
+Proof.
+  intros Q Hx Hp P G. apply constraint_effective; try assumption.
+  intros NF. destruct (G NF) as [D Sm]. repeat split; try assumption. eapply parse_line_wf. exact P.
+Qed.
+
+(* every expression has a text (its Go String()) that the go command reads back with the same meaning *)
+Theorem every_expression_has_a_text e :
+  wf_tags e = true -> no_dneg e = true -> small e = true ->
+  no_lf (go_string e) = true /\
+  exists e', parse_line (trim (gb_text (go_string e))) = LOk e' /\ equiv e' e.
+Proof.
+  intros W D Sm. split; [|apply parse_line_canon; assumption].
+  destruct (parse_line_canon e W D Sm) as [e' [P _]].
+  (* a text that lexes contains no newline *)
+  rewrite trim_gb_go_string in P by exact W. unfold parse_line, gb_text in P.
+  rewrite has_prefix_gobuild, skipn_gobuild in P.
+  clear P. unfold go_string.
+  assert (T : forall ts, toks_ok false ts = true \/ toks_ok true ts = true -> no_lf (render ts) = true).
+  { induction ts as [|t r IH]; intros H; [reflexivity|].
+    change (render (t :: r)) with (tok_str t ++ render r). unfold no_lf. rewrite forallb_app.
+    apply andb_true_iff. split.
+    - destruct t; try reflexivity. simpl in H.
+      assert (WT : wf_tag s = true) by (destruct H as [H|H]; [apply andb_true_iff in H as [H _]; exact H | discriminate]).
+      unfold wf_tag in WT. apply andb_true_iff in WT as [_ A]. simpl tok_str.
+      clear -A. induction s as [|c s IHs]; [reflexivity|]. simpl in *. apply andb_true_iff in A as [A1 A2].
+      rewrite (IHs A2), andb_true_r. destruct c; try reflexivity. vm_compute in A1. discriminate.
+    - apply IH. destruct t; simpl in H; destruct H as [H|H]; try discriminate;
+        try (left; exact H); try (right; apply andb_true_iff in H as [_ H]; exact H). }
+  apply T. left. apply go_toks_ok. exact W.
+Qed.
+
+(* witnesses of the three guarded classes *)
+Lemma dneg_witness :
+  let x := B "!(!foo)" in
+  exists e, parse_line (trim (gb_text x)) = LOk e /\ no_dneg e = false /\
+            should_build (fun _ => true) (file_lines Gofmt Testify None (Some x) (B "mocks")) = BadConstraint /\
+            should_build (fun _ => true) (file_lines Noop Testify None (Some x) (B "mocks")) = Included.
+Proof. eexists. vm_compute. repeat split. Qed.
+
+Lemma directive_witness :
+  let b := B "//go:build bar" in
+  comment_only b = true /\ quiet b = false /\
+  should_build (fun _ => true) (file_lines Noop Testify (Some b) (Some (B "foo")) (B "mocks")) = MultipleGoBuild.
+Proof. vm_compute. repeat split. Qed.
+
+Fixpoint is_infix (p s : str) : bool :=
+  has_prefix s p || match s with [] => false | _ :: t => is_infix p t end.
+
+Lemma is_infix_spec p s : is_infix p s = true <-> exists pre post, s = pre ++ p ++ post.
+Proof.
+  induction s as [|c t IH]; cbn [is_infix].
+  - rewrite orb_false_r. split.
+    + intros H. apply has_prefix_spec in H as [r E]. exists [], r. exact E.
+    + intros [pre [post E]]. destruct pre; [|discriminate]. apply has_prefix_spec. exists post. exact E.
+  - rewrite orb_true_iff, IH. split.
+    + intros [H|[pre [post E]]].
+      * apply has_prefix_spec in H as [r E]. exists [], r. exact E.
+      * exists (c :: pre), post. rewrite E. reflexivity.
+    + intros [pre [post E]]. destruct pre as [|d pre].
+      * left. apply has_prefix_spec. exists post. exact E.
+      * right. injection E as _ E. exists pre, post. exact E.
+Qed.
+
+Lemma split_witness :
+  let b := B "// a" ++ [LF; LF] ++ B "/* b */" in
+  quiet b = true /\ fmt_verbatim_guard b = false /\
+  is_infix b (header Gofmt Testify (Some b) (Some (B "foo"))) = false /\
+  is_infix b (header Noop Testify (Some b) (Some (B "foo"))) = true.
+Proof. vm_compute. repeat split. Qed.
+
+Lemma trailing_ws_witness :
+  let b := B "// a " in
+  quiet b = true /\ fmt_verbatim_guard b = false /\
+  is_infix b (header Goimports Matryer (Some b) None) = false.
+Proof. vm_compute. repeat split. Qed.
